@@ -13,7 +13,7 @@ META = {
              'kind, sorted (dtype+order, layout, cast), window?, outcome); non-trivial when a buffer is a view, '
              'read-only, big-endian, cast, or the write failed'),
     'required_obs': {'quick': ['digest-compared', 'src-inline', 'src-dict', 'src-struct', 'src-hdf5', 'big-endian',
-                               'cast', 'view', 'readonly', 'failed-write', 'h5-open-audited', 'readonly-differential', 'native-zero-copy', 'dict-plus-inline', 'hc-write-ok']},
+                               'cast', 'view', 'readonly', 'failed-write', 'h5-open-audited', 'readonly-differential', 'native-zero-copy', 'dict-plus-inline', 'hc-write-ok', 'cast-of-out-of-range-values']},
     'assumptions': ['sys.addaudithook sees Python-level open(); h5py opens are observed through the h5py.File mode '
                     'argument recorded by a wrapper on h5py.File.__init__ and, in the thorough tier, through strace'],
 }
@@ -82,6 +82,11 @@ def run_case(case):
     else:
         sp = gen.frame_spec(r, casts=r.random() < 0.4, window=r.random() < 0.4, nframes=r.choice([1, 1, 2]),
                             mixed_inline=r.random() < 0.5)
+    # declared casts of values that do not fit the target (whatever the cast does with them, it does it to a copy)
+    for o in sp['ops']:
+        if o['op'] == 'channel' and o.get('cast_dtype') and o['data']['dtype'][1] == 'f' and r.random() < 0.6:
+            o['data']['fill'] = {'kind': 'pos', 'tag': r.choice([40, 70, 3000000])}
+            bump('cast-of-out-of-range-values')
     fail = None
     if case['kind'] == 'failing':
         fail = r.choice(['missing-dataset', 'flush-error', 'flush-error'])
